@@ -1607,7 +1607,9 @@ def run(ctx):
                 "cut-off needed+3 for the (2,1),(3,1),(3,2),(3,3) spaces of 3 orbitals only; "
                 "driver matrix reduced to 6 cells; eigenvectors: lowest and highest only; at most 4 references per eigenvector")
     try:
-        ctx.pmap(job, jobs + rj)
+        # thorough: a fresh worker process per job (long-lived workers exhaust the executable-memory mappings: "LLVM
+        # compilation error: Cannot allocate memory" after ~60 min)
+        ctx.pmap(job, jobs + rj, tasks_per_child=(1 if ctx.tier == "thorough" else None))
     finally:
         with contextlib.suppress(OSError):
             os.rmdir(TMP_ROOT)  # every cell removes its own directory; the root goes only when empty
